@@ -35,6 +35,8 @@ CLAIMS = {
             NOTE_ENGINE + "; directory lock not modelled here (C16); refreshing a non-empty destination is outside the theorems"),
     "C08": ("Theorems C08_*: for any number of clients, any programs over Put/Delete/Get and EVERY schedule of their atomic actions from any reachable state, every completed call returns what the sequential specification returns at the call's linearization point (one of its own actions), a Get between index lookup and file read is immune to the other clients, the live state is the specification state after all linearization points and the log replays to it - so a restart at quiescence recovers exactly the live mapping; the atomic-action decomposition is checked against db.go by a theorem over the lock/append/index-update sequence extracted on every run (T2); the check steps real goroutines through generated schedules against the model, parks writers inside their critical sections to observe blocking, and runs free stress with a per-key linearizability checker and a restart comparison",
             NOTE_ENGINE + "; theorem at lock granularity: sync.RWMutex, shard locks and the Go memory model trusted; concurrent Merge / iterators / batches covered by execution only"),
+    "C09": ("Theorems C09_*: (deadlock) for any number of threads and any schedule, threads that follow the lock-ordering discipline (take a lock only above every lock held, never one already held, release what is held, end empty-handed) never reach a deadlock; the discipline composes over call sequences; EVERY branch-free path of every exported call (Put, Get, Delete, ListKeys, Fold, Stat, Sync, Merge, Backup, Close, iterator calls, a whole batch session) extracted from the current source by translator T2b follows it with DB.mu < Batch.mu < shard lock - hence no set of clients issuing these calls deadlocks on the engine's locks; (races, panics, stalls, internal errors) searched for at run time: 2-16 goroutines issuing a random mix of all calls under the Go race detector, with recover, a watchdog that aborts the process, error classification and ordering checks of ListKeys/Fold/iterator output",
+            "partial: the deadlock theorem is about the lock-event paths the translator extracts (syntactic, loops once, correlated boolean flags propagated, library calls by a small effect table); data-race freedom and absence of panics are NOT proved - they are searched for by instrumented execution (a race report, panic, stall or error is the replay); accesses through the mmap region are invisible to the detector"),
     "C10": ("Theorems C10_*: for every index content, EVERY assignment of keys to shards and shard count, each of the three shard-iterator kinds, both directions, every prefix and every call sequence over Rewind/Seek/Next whose Seek targets lie at or ahead of the cursor, (Valid, Key, position of Value) at creation and after every call equal those of a cut into the ordered, prefix-filtered snapshot (refinement proof with an invariant over live and parked shard cursors); the reference yields every key once in order and Seek positions at the first key at or after the target; ListKeys is the forward snapshot; the check runs generated legal call sequences (writes interleaved after creation, several iterators, all index types and shard counts) on the real engine, the model and a reference iterator",
             "theorems are about the Gallina model of index/sharded_index.go, btree.go, skiplist.go, map.go and iterator.go (model/Index.v); container/heap and the ordered containers are abstracted by their contracts; Value is the record at the snapshot's position (C01: positions stay readable while the database is open)"),
     "C15": ("Theorems C15_*: on an explicit heap of byte cells, for every call sequence of a caller that reuses one key buffer and one value buffer, overwrites them with arbitrary bytes after every return and writes arbitrary bytes into every returned slice, an engine that copies at the boundary returns exactly the results of the value-semantic run and ends with its contents; no cell other than the caller's two buffers is ever modified after it exists (returned slices never change); the check runs every generated engine scenario with such a hostile caller (all index types, batches, merges, restarts) against the value-semantic model, with canaries on returned slices",
